@@ -383,6 +383,8 @@ class Mode(LogMixin):
 
         # Clean up the mode handlers and devices
         self._remove_mode_event_handlers()
+        # delays added by control events while the mode was stopping must not outlive the mode
+        self.delay.clear()
         self._remove_mode_devices()
 
         for callback in self.stop_callbacks:
